@@ -303,7 +303,47 @@ func registerStrings(p *Program) {
 	concrete2("strings.TrimRight", func(a, b string) Value { return strings.TrimRight(a, b) })
 	concrete2("strings.LastIndex", func(a, b string) Value { return int64(strings.LastIndex(a, b)) })
 	concrete2("strings.Count", func(a, b string) Value { return int64(strings.Count(a, b)) })
-	concrete2("strings.ContainsAny", func(a, b string) Value { return strings.ContainsAny(a, b) })
+	// jnContains answers "does the text of a json.Number contain one of chars" from the model's
+	// canonical spelling (optional '-', digits, and '.' plus digits when the scale is positive).
+	jnContains := func(m *Machine, a Value, chars string) (Value, bool) {
+		as, ok := a.(*AStr)
+		if !ok {
+			return nil, false
+		}
+		n, ok := m.jnTexts[as.T]
+		if !ok || n.JBad != nil {
+			return nil, false
+		}
+		c := m.Ctx
+		res := c.False
+		for _, ch := range chars {
+			switch {
+			case ch == '.':
+				res = c.Or(res, c.Lt(c.Int(0), n.JK))
+			case ch == '-':
+				res = c.Or(res, c.Lt(n.JN, c.Int(0)))
+			case ch == 'e' || ch == 'E' || ch == '+':
+				// never in the canonical spelling
+			default:
+				return nil, false
+			}
+		}
+		return unTerm(m.simp(res)), true
+	}
+	nat("strings.ContainsAny", func(m *Machine, fr *frame, args []Value) Value {
+		a, ok1 := str(args[0])
+		b, ok2 := str(args[1])
+		if ok1 && ok2 {
+			return strings.ContainsAny(a, b)
+		}
+		if ok2 {
+			if v, ok := jnContains(m, args[0], b); ok {
+				return v
+			}
+		}
+		unsupported("strings.ContainsAny on symbolic string")
+		return nil
+	})
 	concrete2("strings.IndexAny", func(a, b string) Value { return int64(strings.IndexAny(a, b)) })
 	concrete2("strings.Compare", func(a, b string) Value { return int64(strings.Compare(a, b)) })
 	nat("strings.ReplaceAll", func(m *Machine, fr *frame, args []Value) Value {
